@@ -152,8 +152,19 @@ impl CfgSpec {
         } else {
             std::env::set_var("XDG_DATA_HOME", user_root);
         }
+        // XDG_DATA_HOME names the directory and HOME is not set at all (a service started with a minimal environment)
+        let home_saved = if NO_HOME_ENV.load(std::sync::atomic::Ordering::Relaxed) {
+            let h = std::env::var_os("HOME");
+            std::env::remove_var("HOME");
+            h
+        } else {
+            None
+        };
         unsafe {
             let p = riti_config_new();
+            if let Some(h) = home_saved {
+                std::env::set_var("HOME", h);
+            }
             let l = CString::new(self.lay.path()).unwrap();
             assert!(riti_config_set_layout_file(p, l.as_ptr()), "layout path rejected: {}", self.lay.path());
             let dd = if self.small { format!("{VERIF}/data_small") } else { format!("{REPO}/data") };
@@ -233,6 +244,8 @@ pub fn enter_working_directory() {
 }
 
 pub static HOME_ENV: std::sync::atomic::AtomicBool = std::sync::atomic::AtomicBool::new(false);
+/// When set, HOME is removed from the environment while a configuration is created (XDG_DATA_HOME is set as usual).
+pub static NO_HOME_ENV: std::sync::atomic::AtomicBool = std::sync::atomic::AtomicBool::new(false);
 
 pub fn user_dir(root: &Path) -> PathBuf {
     root.join("openbangla-keyboard")
